@@ -56,7 +56,7 @@ define_function(log_string)
   {
     msg = (char*) yr_calloc((s->length * 4) + 1, sizeof(char));
     if (msg == NULL)
-      return_integer(YR_UNDEFINED);
+      return ERROR_INSUFFICIENT_MEMORY;
   }
 
   char* p = msg;
@@ -96,7 +96,7 @@ define_function(log_string_msg)
   size_t msg_len = strlen(m) + (s->length * 4) + 1;
   char* msg = (char*) yr_calloc(msg_len, sizeof(char));
   if (msg == NULL && msg_len > 0)
-    return_integer(YR_UNDEFINED);
+    return ERROR_INSUFFICIENT_MEMORY;
 
   char* p = msg;
   strlcpy(msg, m, msg_len);
@@ -132,7 +132,7 @@ define_function(log_integer)
   yr_asprintf(&msg, "%lli", i);
 
   if (msg == NULL)
-    return_integer(YR_UNDEFINED);
+    return ERROR_INSUFFICIENT_MEMORY;
 
   // result is ignored, as we have no way to signal to the library that it
   // should abort or continue.
@@ -153,7 +153,7 @@ define_function(log_integer_msg)
   yr_asprintf(&msg, "%s%lli", s, i);
 
   if (msg == NULL)
-    return_integer(YR_UNDEFINED);
+    return ERROR_INSUFFICIENT_MEMORY;
 
   // result is ignored, as we have no way to signal to the library that it
   // should abort or continue.
@@ -173,7 +173,7 @@ define_function(log_float)
   yr_asprintf(&msg, "%f", f);
 
   if (msg == NULL)
-    return_integer(YR_UNDEFINED);
+    return ERROR_INSUFFICIENT_MEMORY;
 
   // result is ignored, as we have no way to signal to the library that it
   // should abort or continue.
@@ -194,7 +194,7 @@ define_function(log_float_msg)
   yr_asprintf(&msg, "%s%f", s, f);
 
   if (msg == NULL)
-    return_integer(YR_UNDEFINED);
+    return ERROR_INSUFFICIENT_MEMORY;
 
   // result is ignored, as we have no way to signal to the library that it
   // should abort or continue.
@@ -214,7 +214,7 @@ define_function(hex_integer)
   yr_asprintf(&msg, "0x%llx", i);
 
   if (msg == NULL)
-    return_integer(YR_UNDEFINED);
+    return ERROR_INSUFFICIENT_MEMORY;
 
   // result is ignored, as we have no way to signal to the library that it
   // should abort or continue.
@@ -235,7 +235,7 @@ define_function(hex_integer_msg)
   yr_asprintf(&msg, "%s0x%llx", s, i);
 
   if (msg == NULL)
-    return_integer(YR_UNDEFINED);
+    return ERROR_INSUFFICIENT_MEMORY;
 
   // result is ignored, as we have no way to signal to the library that it
   // should abort or continue.
